@@ -9,103 +9,39 @@ import Mfi.Model.Bank
 import Mfi.Lemmas.FxL
 import Mfi.Lemmas.ResL
 import Mfi.Lemmas.BankL
+import Mfi.Lemmas.DeltaL
 import Mfi.Props.C03
 import Mfi.Model.Ix
 import Mfi.Model.Venue
+import Mfi.Lemmas.WorldLedger
 
 namespace Mfi.Props.C02
 open Mfi Mfi.Fx Mfi.Bank Mfi.Gen
 
-/-! ### per-operation delta equality -/
+/-! ### per-operation delta equality (proofs in Mfi/Lemmas/DeltaL.lean, shared with the whole-instruction ledger) -/
 
 /-- **increase: same delta on both books** -/
 theorem increase_delta_eq {b0 b' : Bank} {x0 x' : Balance} {now delta : Int} {t : IncType}
     (h : increaseBalance b0 x0 now delta t = .ok (b', x')) :
-    b'.sa - b0.sa = x'.a - x0.a ∧ b'.sl - b0.sl = x'.l - x0.l := by
-  obtain ⟨b1, x1, _, _, aInc, lDec, b2, b3, hc, _, _, _, _, _, hb2, _, hb3, _, _, _, _, hx', ⟨lc, bc, hb'⟩⟩ :=
-    (increase_spec h).ex
-  obtain ⟨⟨r, hb1⟩, ⟨e, hx1⟩⟩ := claim_frame hc
-  obtain ⟨e2, _, _⟩ := changeAsset_frame hb2
-  obtain ⟨e3, _, _⟩ := changeLiab_frame hb3
-  rw [hb', e3, e2, hb1, hx', hx1]
-  simp only
-  omega
+    b'.sa - b0.sa = x'.a - x0.a ∧ b'.sl - b0.sl = x'.l - x0.l := Mfi.DeltaL.increase_delta_eq h
 
 /-- **decrease: same delta on both books** -/
 theorem decrease_delta_eq {b0 b' : Bank} {x0 x' : Balance} {now delta : Int} {t : DecType}
     (h : decreaseBalance b0 x0 now delta t = .ok (b', x')) :
-    b'.sa - b0.sa = x'.a - x0.a ∧ b'.sl - b0.sl = x'.l - x0.l := by
-  obtain ⟨b1, x1, _, _, aDec, lInc, b2, b3, hc, _, _, _, _, _, hb2, _, hb3, _, _, _, _, _, hx', ⟨lc, bc, hb'⟩⟩ :=
-    (decrease_spec h).ex
-  obtain ⟨⟨r, hb1⟩, ⟨e, hx1⟩⟩ := claim_frame hc
-  obtain ⟨e2, _, _⟩ := changeAsset_frame hb2
-  obtain ⟨e3, _, _⟩ := changeLiab_frame hb3
-  rw [hb', e3, e2, hb1, hx', hx1]
-  simp only
-  omega
+    b'.sa - b0.sa = x'.a - x0.a ∧ b'.sl - b0.sl = x'.l - x0.l := Mfi.DeltaL.decrease_delta_eq h
 
 /-- **withdraw_all**: the bank's deposit total falls by exactly the position's deposit shares; the
     position's (dust) liability shares are abandoned: the bank's debt total is unchanged. -/
 theorem withdraw_all_delta {b0 b' : Bank} {x0 x' : Balance} {now amt : Int}
     (h : withdrawAll b0 x0 now = .ok (b', x', amt)) :
     b'.sa = b0.sa - x0.a ∧ b'.sl = b0.sl ∧ x'.a = 0 ∧ x'.l = 0 ∧
-    b'.asv = b0.asv ∧ b'.lsv = b0.lsv := by
-  unfold withdrawAll at h
-  obtain ⟨⟨b1, x1⟩, hc, h⟩ := Res.bind_ok h
-  dsimp only at h
-  obtain ⟨curA, _, h⟩ := Res.bind_ok h
-  obtain ⟨curL, _, h⟩ := Res.bind_ok h
-  obtain ⟨_, _, h⟩ := Res.bind_ok h
-  obtain ⟨_, _, h⟩ := Res.bind_ok h
-  obtain ⟨bal', hclose, h⟩ := Res.bind_ok h
-  obtain ⟨b2, hb2, h⟩ := Res.bind_ok h
-  obtain ⟨_, _, h⟩ := Res.bind_ok h
-  obtain ⟨dust, _, h⟩ := Res.bind_ok h
-  obtain ⟨f, _, h⟩ := Res.bind_ok h
-  obtain ⟨amt', _, h⟩ := Res.bind_ok h
-  injection h with h
-  injection h with h1 h2
-  injection h2 with h2 h3
-  obtain ⟨⟨r, hb1⟩, ⟨e, hx1⟩⟩ := claim_frame hc
-  obtain ⟨e2, _, _⟩ := changeAsset_frame hb2
-  have hclosed : bal' = emptyDeactivated := by
-    unfold closeBalance at hclose
-    split at hclose
-    · cases hclose
-    · injection hclose with hclose; exact hclose.symm
-  rw [← h1, ← h2, hclosed, e2, hb1, hx1]
-  simp [emptyDeactivated] <;> omega
+    b'.asv = b0.asv ∧ b'.lsv = b0.lsv := Mfi.DeltaL.withdraw_all_delta h
 
 /-- **repay_all** -/
 theorem repay_all_delta {b0 b' : Bank} {x0 x' : Balance} {now amt : Int}
     (h : repayAll b0 x0 now = .ok (b', x', amt)) :
     b'.sl = b0.sl - x0.l ∧ b'.sa = b0.sa ∧ x'.a = 0 ∧ x'.l = 0 ∧
-    b'.asv = b0.asv ∧ b'.lsv = b0.lsv := by
-  unfold repayAll at h
-  obtain ⟨⟨b1, x1⟩, hc, h⟩ := Res.bind_ok h
-  dsimp only at h
-  obtain ⟨curL, _, h⟩ := Res.bind_ok h
-  obtain ⟨curA, _, h⟩ := Res.bind_ok h
-  obtain ⟨_, _, h⟩ := Res.bind_ok h
-  obtain ⟨_, _, h⟩ := Res.bind_ok h
-  obtain ⟨bal', hclose, h⟩ := Res.bind_ok h
-  obtain ⟨b2, hb2, h⟩ := Res.bind_ok h
-  obtain ⟨spl, _, h⟩ := Res.bind_ok h
-  obtain ⟨dust, _, h⟩ := Res.bind_ok h
-  obtain ⟨f, _, h⟩ := Res.bind_ok h
-  obtain ⟨amt', _, h⟩ := Res.bind_ok h
-  injection h with h
-  injection h with h1 h2
-  injection h2 with h2 h3
-  obtain ⟨⟨r, hb1⟩, ⟨e, hx1⟩⟩ := claim_frame hc
-  obtain ⟨e2, _, _⟩ := changeLiab_frame hb2
-  have hclosed : bal' = emptyDeactivated := by
-    unfold closeBalance at hclose
-    split at hclose
-    · cases hclose
-    · injection hclose with hclose; exact hclose.symm
-  rw [← h1, ← h2, hclosed, e2, hb1, hx1]
-  simp [emptyDeactivated] <;> omega
+    b'.asv = b0.asv ∧ b'.lsv = b0.lsv := Mfi.DeltaL.repay_all_delta h
 
 /-- **close_balance**: bank totals untouched, both (dust) sides of the position abandoned; the code
     checked that each side is worth less than ZERO_AMOUNT_THRESHOLD. -/
@@ -113,27 +49,7 @@ theorem close_balance_delta {b0 b' : Bank} {x0 x' : Balance} {now : Int}
     (h : closeBalanceOp b0 x0 now = .ok (b', x')) :
     b'.sa = b0.sa ∧ b'.sl = b0.sl ∧ x'.a = 0 ∧ x'.l = 0 ∧ b'.asv = b0.asv ∧ b'.lsv = b0.lsv ∧
     (∃ curA curL, assetAmount b0 x0.a = .ok curA ∧ liabAmount b0 x0.l = .ok curL ∧
-      isZeroTol curA ZERO_AMOUNT_THRESHOLD = true ∧ isZeroTol curL ZERO_AMOUNT_THRESHOLD = true) := by
-  unfold closeBalanceOp at h
-  obtain ⟨⟨b1, x1⟩, hc, h⟩ := Res.bind_ok h
-  dsimp only at h
-  obtain ⟨curL, hcl, h⟩ := Res.bind_ok h
-  obtain ⟨curA, hca, h⟩ := Res.bind_ok h
-  obtain ⟨_, hz1, h⟩ := Res.bind_ok h
-  obtain ⟨_, hz2, h⟩ := Res.bind_ok h
-  obtain ⟨bal', hclose, h⟩ := Res.bind_ok h
-  injection h with h
-  injection h with h1 h2
-  obtain ⟨⟨r, hb1⟩, ⟨e, hx1⟩⟩ := claim_frame hc
-  have hclosed : bal' = emptyDeactivated := by
-    unfold closeBalance at hclose
-    split at hclose
-    · cases hclose
-    · injection hclose with hclose; exact hclose.symm
-  refine ⟨by rw [← h1, hb1], by rw [← h1, hb1], by rw [← h2, hclosed]; rfl, by rw [← h2, hclosed]; rfl,
-    by rw [← h1, hb1], by rw [← h1, hb1], curA, curL, ?_, ?_, chk_ok hz2, chk_ok hz1⟩
-  · unfold assetAmount at hca ⊢; rw [hx1, hb1] at hca; exact hca
-  · unfold liabAmount at hcl ⊢; rw [hx1, hb1] at hcl; exact hcl
+      isZeroTol curA ZERO_AMOUNT_THRESHOLD = true ∧ isZeroTol curL ZERO_AMOUNT_THRESHOLD = true) := Mfi.DeltaL.close_balance_delta h
 
 /-! ### the ledger of one bank over arbitrary histories -/
 
@@ -603,5 +519,59 @@ theorem kamino_withdraw_rejects_wrong_collateral {now amount obPre obPost vPre v
 
 
 end venue
+
+section whole_instructions
+open Mfi Mfi.World Mfi.Gen Mfi.Gen.Acc
+
+/-! ### whole instructions, whole protocol (Mfi/Model/World.lean)
+
+The ledger theorems above speak about wrapper operations on one bank. These lift them to the five WHOLE user instructions —
+account checks, gates, accrual, `find_or_create` on the 16-slot array, the write-back, `sort_balances`, the health check —
+executed by any signers on any number of margin accounts and banks in any order. -/
+
+/-- **world_instruction_ledger_step**: a successful whole instruction changes the operated bank's share totals by exactly
+    what the account's slot array gains or loses in that bank — plus, for a complete withdrawal / complete repayment /
+    balance closure, the other-side residue of the closed position, which is abandoned — and leaves the account's holdings
+    in every other bank untouched, although it may have opened a slot, rewritten one and re-sorted the whole array. -/
+theorem world_instruction_ledger_step (c : Ctx) :
+    (∀ amt up o, World.deposit c amt up = .ok o → LedgerStep c o 0 0) ∧
+    (∀ amt o, World.borrow c amt = .ok o → LedgerStep c o 0 0) ∧
+    (∀ amt all o, World.withdraw c amt all = .ok o → LedgerStep c o 0 (if all then (slotOf c.a c.b.key).l else 0)) ∧
+    (∀ amt all o, World.repay c amt all = .ok o → LedgerStep c o (if all then (slotOf c.a c.b.key).a else 0) 0) ∧
+    (∀ o, World.closeBalance c = .ok o → LedgerStep c o (slotOf c.a c.b.key).a (slotOf c.a c.b.key).l) :=
+  ⟨fun _ _ _ h => deposit_ledger h, fun _ _ h => borrow_ledger h, fun _ _ _ h => withdraw_ledger h,
+   fun _ _ _ h => repay_ledger h, fun _ h => close_ledger h⟩
+
+/-- **world_ledger_history**: over EVERY history of whole instructions (deposits, withdrawals, borrows, repayments, balance
+    closures by any signer on any account and bank, with any arguments, refused ones rolled back, the clock advancing in
+    between) in a world of any number of accounts and banks with distinct keys, every bank's share totals equal the sum
+    over all accounts of the shares their slot arrays hold in it, plus the dust that closures abandoned there. -/
+theorem world_ledger_history (w : WState) (ops : List WOp) (h : WInv w) : WInv (w.run ops) := run_inv ops w h
+
+/-- an empty world satisfies the invariant (so does every world reached from it: non-vacuity of the history theorem) -/
+theorem world_ledger_initial (now : Int) (g : GroupV) (banks : List WBank) (n : Nat)
+    (hk : ∀ (i j : Nat) (bi bj : WBank), banks[i]? = some bi → banks[j]? = some bj → i ≠ j → bi.v.key ≠ bj.v.key)
+    (h0 : ∀ b ∈ banks, b.v.books.sa = 0 ∧ b.v.books.sl = 0) (group authority : Nat) :
+    WInv { now, g, banks, dustA := fun _ => 0, dustL := fun _ => 0,
+           accts := List.replicate n { key := 0, group, authority, flags := 0, slots := List.replicate 16 Account.emptySlot } } := by
+  have hz : ∀ k, posA k (List.replicate 16 Account.emptySlot) = 0 ∧ posL k (List.replicate 16 Account.emptySlot) = 0 := by
+    intro k; constructor <;> simp [posA, posL, Account.emptySlot, List.replicate, List.filter]
+  refine ⟨hk, ?_, ?_⟩
+  · intro j b hb
+    have hm := List.mem_of_getElem? hb
+    rw [(h0 b hm).1]
+    simp only [List.map_replicate, (hz b.v.key).1]
+    induction n with
+    | zero => simp
+    | succ n ih => simp [List.replicate_succ]
+  · intro j b hb
+    have hm := List.mem_of_getElem? hb
+    rw [(h0 b hm).2]
+    simp only [List.map_replicate, (hz b.v.key).2]
+    induction n with
+    | zero => simp
+    | succ n ih => simp [List.replicate_succ]
+
+end whole_instructions
 
 end Mfi.Props.C02
